@@ -671,33 +671,91 @@ def single_pipeline(repo, res):
 
 @rule(
     "ALIAS-NAMES",
-    ["C20"],
-    "name_from_uflfile is form_<prefix>_<name> / expression_<prefix>_<name> with <name> looked up in "
-    "object_names by id of the ORIGINAL form / expression and the index as fallback",
-    min_instances=2,
+    ["C20", "C19"],
+    "the alias of an expression is expression_<prefix>_<name> with <name> registered in object_names under the identity of the ORIGINAL "
+    "expression, the position in the module otherwise (slice of _compute_expression_ir interpreted; forms: FORM-IR-SOURCES); "
+    "compute_ir, interpreted on object lists, refuses a module in which two objects get the same alias (the same expression at "
+    "two point sets, the same form listed twice): the header would declare the alias twice and the source define it twice",
+    min_instances=5,
 )
 def alias_names(repo, res):
+    from ..absint import Interp, Node, Raised, _PyCall
+    from ..lnodes_model import load_classes
+    from ..sliceint import value_of
+    from ._irsamples import IRSamples
+
     rep = repo.mod("ffcx.ir.representation")
-    for fname, kind, obj_pat, idx in (("_compute_form_ir", "form", r"original_form", "form_id"), ("_compute_expression_ir", "expression", r"original_expr", "index")):
-        f = rep.func(fname)
-        res.functions.add(f.key)
-        key = f"{f.key}:alias"
+    g = rep.func("_compute_expression_ir")
+    res.functions.add(g.key)
+    S = IRSamples(repo)
+
+    def alias(names_for, index=0):
+        it, env = S.expression(g)
+        processed, _pts, original = env[g.params[0]]
+        env["index"] = index
+        env["object_names"] = {id({"processed": processed, "original": original}[k]): v for k, v in names_for.items()}
+        try:
+            return value_of(it, g, env, key="name_from_uflfile")
+        except Raised as e:
+            return f"raises {e.what}"
+
+    for label, names_for, index, want in (("named original expression", {"original": "flux"}, 0, "expression_p_flux"), ("unnamed expression, position 3", {}, 3, "expression_p_3"),
+                                          ("a name registered for the processed expression only", {"processed": "wrong"}, 1, "expression_p_1")):
+        key = f"{g.key}:alias:{label}"
         res.ob(key)
-        sl = Slicer(f.node)
-        stores = [n for n in walk_no_nested(f.node) if isinstance(n, ast.Assign) and isinstance(n.targets[0], ast.Subscript)
-                  and isinstance(n.targets[0].slice, ast.Constant) and n.targets[0].slice.value == "name_from_uflfile"]
-        if len(stores) != 1 or not isinstance(stores[0].value, ast.JoinedStr):
-            res.fail(key, "name_from_uflfile is not built by one f-string", rep.line(f.node))
-            continue
-        js = stores[0].value
-        lits = [v.value for v in js.values if isinstance(v, ast.Constant)]
-        vals = [v.value for v in js.values if isinstance(v, ast.FormattedValue)]
-        if lits != [f"{kind}_", "_"] or len(vals) != 2 or ast.unparse(vals[0]) != "prefix":
-            res.fail(key, f"alias is `{ast.unparse(js)}`, expected f'{kind}_{{prefix}}_{{name}}'", rep.line(stores[0]))
-            continue
-        nt = sl.text(vals[1])
-        if not re.search(r"object_names\.get\(id\([^)]*" + obj_pat + r"[^)]*\),\s*" + idx + r"\)", nt):
-            res.fail(key, f"alias name comes from `{nt[:90]}`, expected object_names.get(id(<{obj_pat}>), {idx})", rep.line(stores[0]))
+        got = alias(names_for, index)
+        if got != want:
+            res.fail(key, f"{label}: the alias is {got!r}, expected {want!r} (expression_<prefix>_<name of the original expression, or its position>)", rep.line(g.node))
+    # uniqueness of aliases within one module
+    ci = rep.func("compute_ir")
+    res.functions.add(ci.key)
+
+    def run(forms, exprs, names):
+        it = Interp(repo, load_classes(repo), primary="ffcx.ir.representation")
+        it.overrides["logger"] = Node("Logger", info=_PyCall(lambda *a: None), debug=_PyCall(lambda *a: None))
+        it.overrides["naming.form_name"] = _PyCall(lambda form, i, prefix: f"form_{i}_{prefix}")
+        it.overrides["naming.integral_name"] = _PyCall(lambda form, t, i, sid, prefix: f"integral_{i}_{t}")
+        it.overrides["naming.expression_name"] = _PyCall(lambda e, prefix, i=None: f"expression_{i}_{prefix}")
+        it.overrides["_compute_integral_ir"] = _PyCall(lambda fd, i, els, inames, opts, vis: [])
+        it.overrides["_compute_form_ir"] = _PyCall(lambda fd, i, prefix, fnames, inames, idom, onames, part:
+                                                    Node("FormIR", name=fnames[i], name_from_uflfile=f"form_{prefix}_{onames.get(id(fd.f['original_form']), i)}"))
+        it.overrides["_compute_expression_ir"] = _PyCall(lambda e, i, prefix, an, opts, vis, onames:
+                                                          Node("ExpressionIR", name=f"expression_{i}", name_from_uflfile=f"expression_{prefix}_{onames.get(id(e[2]), i)}"))
+        it.overrides["TensorPart.from_str"] = _PyCall(lambda s_: "TensorPart.full")
+        it.overrides["DataIR"] = _PyCall(lambda **k: Node("DataIR", **k))
+        it.overrides["id"] = _PyCall(lambda o: id(o))
+        it.overrides["itertools.chain"] = _PyCall(lambda *a: [x for l_ in a for x in l_])
+        fds = [Node("FormData", original_form=f_, integral_data=[]) for f_ in forms]
+        an = Node("UFLData", form_data=fds, expressions=list(exprs), element_numbers={}, unique_elements=[])
+        return it.call_f(ci, [an, names, "p", {"part": "full", "scalar_type": "float64"}, False])
+
+    fa, fb = Node("Form", name="a"), Node("Form", name="b")
+    e1, e2 = Node("Expr", name="flux"), Node("Expr", name="stress")
+    ok_cases = [("two named forms, two named expressions", [fa, fb], [("p1", "pts1", e1), ("p2", "pts1", e2)], {id(fa): "a", id(fb): "L", id(e1): "flux", id(e2): "stress"}),
+                ("unnamed objects", [fa, fb], [("p1", "pts1", e1), ("p1b", "pts2", e1)], {})]
+    bad_cases = [("the same named expression at two point sets", [fa], [("p1", "pts1", e1), ("p1b", "pts2", e1)], {id(fa): "a", id(e1): "flux"}),
+                 ("the same named form listed twice", [fa, fa], [], {id(fa): "a"}),
+                 ("two objects given one name", [fa, fb], [], {id(fa): "a", id(fb): "a"})]
+    for label, forms, exprs, names in ok_cases:
+        key = f"{ci.key}:aliases:{label}"
+        res.ob(key)
+        try:
+            out = run(forms, exprs, names)
+            al = [x.f["name_from_uflfile"] for x in out.f["forms"] + out.f["expressions"]]
+            if len(set(al)) != len(al):
+                res.fail(key, f"{label}: aliases {al} are not distinct", rep.line(ci.node))
+        except Raised as e:
+            res.fail(key, f"compute_ir rejects {label} ({e.what})", rep.line(ci.node))
+    for label, forms, exprs, names in bad_cases:
+        key = f"{ci.key}:aliases:{label}"
+        res.ob(key)
+        try:
+            out = run(forms, exprs, names)
+            al = [x.f["name_from_uflfile"] for x in out.f["forms"] + out.f["expressions"]]
+            res.fail(key, f"{label}: compute_ir returns a module whose aliases are {al}: `extern ufcx_... * {sorted(a for a in al if al.count(a) > 1)[0]};` is declared twice in "
+                     "the header and defined twice in the source (redefinition error in the C compiler instead of a Python exception)", rep.line(ci.node))
+        except Raised:
+            pass
 
 
 @rule(
